@@ -60,6 +60,9 @@ def build_unit(name, unit):
     for ename in unit.get("enums", []):
         parts.append(X.find_enum(src_of(main_src), ename) + "\n")
         log["functions"].append({"name": "enum " + ename, "file": main_src, "verbatim": True})
+    for rel, ename in unit.get("enums_from", []):
+        parts.append(X.find_enum(src_of(rel), ename) + "\n")
+        log["functions"].append({"name": "enum " + ename, "file": rel, "verbatim": True})
     for cname in unit.get("consts_verbatim", []):
         parts.append(X.find_const_item(src_of(main_src), cname) + "\n")
     for rel, cname in unit.get("const_items", []):
